@@ -109,6 +109,7 @@ def exec_cases():
           'price = 1.1; price = 1.10; price', 'qty = 3; qty = 3.00; qty', 'r = 0.5; r = 0.500; r = 0.50; r', 'a = 1.0; b = a; a = 1; [a, b]', 'x = 2.50; y = x; y',
           '5 = (y = 2)', 'a = 1; [a = 2] = (a = 3); a', 'n = 10; (n + 1) <<= (m = n)', 'one() = (y = two())', '(x = 1) = 2', 't() ? (u = 1) : (v = 2)', 'x = 1; x = boom(); y = 2',
           '* 3', '1 + / 2', '[1, % 2]', 'x = == 4', '++ 5', ': 1', 'f(? 2)', '-- x', '&& true', 'in [1]', '! ! true', '- - 1', 'not not true', '* * 2', '1 ++ 2',
+          'nope(one(), two())', 'nope(boom(), one())', 'nope(x = 5); x', '[one(), nope(two()), t()]', 'nosuch(id(one()))',
           'boomT()', 'boomP()', 'boomT', 'sum(1, boomT())', 'min(boomP(), 1)', '[boomT(), one()]', 'x = boomP(); x', 'boomT() ? 1 : 2', 'max(1, 2) + boomP()',
           'boom', 'cnt(boom, two())', 'id(boom)', '[one, boom, two()]', '{one: boom}', 'boom + one()', 'one() + boom', 'true ? boom : 1', 'false ? boom : two()', 'boom ? 1 : 2', 'x = 1; y = boom; z = two(); 4', 'x = boom', '-boom', 'boom++', 'cnt(one, two, t)', 't ? one : two',
           'x = 1', 'x = 1; x', 'x = 1; y = x + 1; y', 'x = 1; x += 2; x', 'x = 6; x -= 1; x *= 3; x %= 4; x', 'x = 8; x /= 2; x', 'x = 6; x &= 3; x |= 8; x ^= 1; x', 'x = y = 3', 'x = 1; x = true; x', 'x += 1', 'x = 1; x += true', 'x = 1; x += true; x',
@@ -191,7 +192,7 @@ def conv_cases():
     for ty, (lo, hi) in lim.items():
         for n in sorted(set([lo, lo + 1, -1, 0, 1, 42, hi - 1, hi, 2**63 - 1, 2**63, 2**63 + 5, 2**64 - 1])):
             if lo <= n <= hi: c.append('%s:%d' % (ty, n))
-    for e in ['3', '3.0', '3.00', '3.5', '-4.0', '9223372036854775807', '9223372036854775808', '(-9223372036854775807) - 1', '(-9223372036854775807) - 2', '18446744073709551615', '18446744073709551621', '0.0', '1.5 * 2', '7 / 2']:
+    for e in ['0.9999999999999999999999999999', '1.0000000000000000000000000001', '2.9999999999999999999999999', '1/3*3', '(-0.9999999999999999999999999999)', '4.000000000000000000000000000', '3', '3.0', '3.00', '3.5', '-4.0', '9223372036854775807', '9223372036854775808', '(-9223372036854775807) - 1', '(-9223372036854775807) - 2', '18446744073709551615', '18446744073709551621', '0.0', '1.5 * 2', '7 / 2']:
         c.append('dec:' + e)
     return c
 
@@ -249,6 +250,13 @@ SCRIPTS = [
         ('parse', 'a =~ b', {}), ('parse', 'a !~ b', {}), ('parse', '5 %‰ 2', {}), ('parse', 'a <=> b', {}), ('parse', 'a =~b', {}), ('exec', "'hello' =~ 'lo'", {})],
        expect=[None, None, None, None, ('ast', 'Binary("=~", Reference("a"), Reference("b"))'), ('ast', 'Binary("!~", Reference("a"), Reference("b"))'), ('ast', 'Binary("%‰", Literal(Number(5)), Literal(Number(2)))'), ('ast', 'Binary("<=>", Reference("a"), Reference("b"))'),
                ('ast', 'Binary("=~", Reference("a"), Reference("b"))'), ('val', 'List([String("match"), String("hello"), String("lo")])')]),
+  dict(name='function_names_are_case_sensitive', steps=[('reg_fn', 'MAX', dict(tag='upper')), ('reg_fn', 'Quota', dict(tag='q1')), ('reg_fn', 'QUOTA', dict(tag='q2')),
+        ('exec', 'max(1, 5)', {}), ('exec', 'MAX(1, 5)', {}), ('exec', 'Quota()', {}), ('exec', 'QUOTA()', {}), ('exec', 'Mul(2, 3)', {}), ('exec', 'quota()', {})],
+       expect=[None, None, None, ('val', 'Number(5)'), ('val', 'String("upper")'), ('val', 'String("q1")'), ('val', 'String("q2")'), ('err',), ('err',)]),
+  dict(name='word_operators_made_of_other_characters', steps=[('reg_prefix', '#', dict(tag='h1')), ('reg_prefix', '##', dict(tag='h2')), ('reg_infix', '@@', dict(tag='at', p='115', assoc='L')), ('reg_infix', 'is-not', dict(tag='isnot', p='60', assoc='L')), ('reg_prefix', '~>', dict(tag='arrow')),
+        ('exec', '## 5', {}), ('exec', '# 5', {}), ('exec', '7 @@ 2', {}), ('exec', '9 is-not 4', {}), ('exec', '~> 5', {}), ('exec', '# # 5', {})],
+       expect=[None, None, None, None, None, ('val', 'List([String("h2"), Number(5)])', ['C10', 'C05']), ('val', 'List([String("h1"), Number(5)])', ['C10', 'C05']), ('val', 'List([String("at"), Number(7), Number(2)])', ['C10', 'C05']), ('val', 'List([String("isnot"), Number(9), Number(4)])', ['C10', 'C05']),
+               ('val', 'List([String("arrow"), Number(5)])', ['C10', 'C05']), ('val', 'List([String("h1"), List([String("h1"), Number(5)])])', ['C10', 'C05'])]),
   dict(name='postfix_registered_after_use', steps=[('parse', '5!!', {}), ('reg_postfix', '!!', dict(tag='ff')), ('parse', '5!!', {})], expect=[('reject',), None, ('ast', 'Postfix(Literal(Number(5)), "!!")')]),
   dict(name='word_postfix_registered_after_use', steps=[('parse', '3 squared', {}), ('reg_postfix', 'squared', dict(tag='sq')), ('parse', '3 squared', {})],
        expect=[('ast', 'Stmt([Literal(Number(3)), Reference("squared")])'), None, ('ast', 'Postfix(Literal(Number(3)), "squared")')]),
